@@ -15,11 +15,14 @@ MAX_DRAWS = 2                # loop iterations explored
 
 def run(rep):
     mir = load_mir(rep); L = Layouts(REPO)
-    rep.bounds = {'chain closure': 'from its start through at most %d draw-loop iterations' % MAX_DRAWS, 'initialisation': 'success explored at attempts 1..%d and "never" (all 500 attempts fail)' % MAX_SUCCESS_ATTEMPT,
+    rep.bounds = {'chain closure': 'from its start through at most %d draw-loop iterations' % MAX_DRAWS, 'initialisation': 'success explored at attempts 1..%d and "never" (all 500 attempts fail); init_position failure at attempts 1..%d' % (MAX_SUCCESS_ATTEMPT, MAX_SUCCESS_ATTEMPT + 1),
                   'call outcomes': 'model construction, init_position, set_position, expanded_draw, record_sample, channel receive, trace slot: every outcome symbolic'}
     rep.assumptions += ['mutexes are not poisoned (the two lock().expect("Poisoned mutex") are excluded, listed here)', 'rayon / channels / threads are not modelled: only the sequential closure body',
                         'recoverable density errors never leave leapfrog as Err (C05.1), so only unrecoverable ones reach expanded_draw as Err']
     rep.outside += ['hanging, interleavings with other chains and the controller, what rayon does with a panic (C10-C12 not applicable)']
+    parts(rep, [lambda: chain_closure(rep, mir, L), lambda: chain_flush(rep, mir, L), lambda: wait_and_abort(rep, mir, L), lambda: controller_loop(rep, mir, L), lambda: controller_scope(rep, mir, L)])
+
+def chain_closure(rep, mir, L):
     fn = [f for n, f in mir.fns.items() if re.search(r'sampler::<impl at src/sampler.rs:\d+:1: \d+:\d+>::start::\{closure#0\}::\{closure#0\}$', n)]
     if len(fn) != 1: rep.unknown('C13 chain closure not found in the MIR'); return
     fn = fn[0].parse(); caps = fn.captures()
@@ -50,7 +53,13 @@ def run(rep):
     vm.add_model(r'^<std::sync::MutexGuard<.*> as DerefMut>::deref_mut$|^<std::sync::MutexGuard<.*> as Deref>::deref$', lambda vm, m, c, a: ret(m, deref_val(vm, m, a[0]).f[0]))
     vm.add_model(r'^<Arc<.*> as Deref>::deref$', lambda vm, m, c, a: ret(m, a[0]))
     vm.add_model(r'^std::vec::from_elem::<f64>$', lambda vm, m, c, a: ret(m, Seq([a[0]] * a[1])))
-    vm.add_model(r'^<M as Model>::init_position::<', fork('init_position', [('ok', lambda m, a: OK(UNIT)), ('err', lambda m, a: anyerr('init_position'))]))
+    def init_position(vm, m, c, a):
+        k = len([e for e in ev(m) if e.startswith('init_position')]) + 1
+        kinds = [('ok', lambda m, a: OK(UNIT))]
+        if k <= MAX_SUCCESS_ATTEMPT + 1: kinds.append(('err', lambda m, a: anyerr('init_position')))     # a failing init_position is explored at attempts 1..3
+        return fork('init_position', kinds)(vm, m, c, a)
+    vm.add_model(r'^<M as Model>::init_position::<', init_position)
+    vm.max_stmts = 20000000
     def set_position(vm, m, c, a):
         k = len([e for e in ev(m) if e.startswith('set_position')]) + 1
         kinds = [('err', lambda m, a: ERR(Opaque('NutsError(set_position)')))]
@@ -117,3 +126,230 @@ def run(rep):
         rep.violated('C13 ' + key, key, what + ' (events: %s)' % tail, model={'events': tail}, native=nat)
     if not bad: rep.holds('C13 chain closure: every failing call (model construction, init_position, all 500 set_position attempts, expanded_draw, record_sample) makes the closure return Err, never a panic or Ok; retried initialisation that succeeds is not an error (%d paths)' % len(outs), time.time() - t0)
     rep.sample({'paths': len(outs), 'example events': ev(outs[0][0])[:12]})
+
+
+def _fork(name, kinds):
+    def h(vm, m, c, a):
+        outs = []
+        for k, mk in kinds:
+            m2 = m.clone(); m2.log('events', (name + ':' + k,)); outs.append((m2, 'ret', mk(m2, a)))
+        return outs
+    return h
+def _ev(m): return [e[0] for e in m.ghost['events']]
+def _context(vm, m, c, a):
+    v = a[0]
+    if isinstance(v, Enum) and v.name == 'Ok': return ret(m, v)
+    if isinstance(v, Enum) and v.name == 'Err': return ret(m, ERR(Struct((v.f[0], a[1]), 'Context')))
+    return ret(m, Struct((v, a[1]), 'Context'))
+def _find(mir, pat):
+    fn = [f for n, f in mir.fns.items() if re.search(pat, n)]
+    return fn[0].parse() if len(fn) == 1 else None
+
+def chain_flush(rep, mir, L):
+    """ChainProcess::flush (what the controller calls for every chain on a Flush command): the storage's flush outcome is symbolic"""
+    fn = _find(mir, r'sampler::<impl at src/sampler.rs:\d+:1: \d+:\d+>::flush$')
+    fns = [f for n, f in mir.fns.items() if re.search(r'sampler::<impl at src/sampler.rs:\d+:1: \d+:\d+>::flush$', n)]
+    fn = next((f.parse() for f in fns if 'ChainProcess' in f.header), None) if fns else None
+    if fn is None: rep.unknown('C13.2 ChainProcess::flush not found in the MIR'); return
+    A = RealAlg(); vm = VM(mir, A); install_misc(vm)
+    vm.add_model(r'anyhow::Context<.*>>::context::<|^anyhow::error::<impl anyhow::Error>::context::<', _context)
+    vm.add_model(r'^<Arc<.*> as Deref>::deref$', lambda vm, m, c, a: ret(m, a[0]))
+    def lock_trace(vm, m, c, a):
+        outs = []
+        for k in ('present', 'removed'):
+            m2 = m.clone(); m2.log('events', ('trace:' + k,)); cell = m2.alloc(SOME(Opaque('chain storage')) if k == 'present' else NONE())
+            outs.append((m2, 'ret', OK(Struct((Ref(cell),), 'MutexGuard'))))
+        return outs
+    vm.add_model(r'^std::sync::Mutex::<std::option::Option<.*ChainStorage>>::lock$', lock_trace)
+    vm.add_model(r'^<std::sync::MutexGuard<.*> as DerefMut>::deref_mut$|^<std::sync::MutexGuard<.*> as Deref>::deref$', lambda vm, m, c, a: ret(m, deref_val(vm, m, a[0]).f[0]))
+    vm.add_model(r' as ChainStorage>::flush$', _fork('storage_flush', [('ok', lambda m, a: OK(UNIT)), ('err', lambda m, a: ERR(Opaque('anyhow(flush)')))]))
+    m = Machine(); m.ghost['events'] = []
+    cp = L.make('ChainProcess', {'stop_marker': Opaque('tx'), 'trace': Opaque('trace arc'), 'progress': Opaque('progress arc')})
+    t0 = time.time(); outs = list(vm.exec_fn(m, fn, [Ref(m.alloc(cp))])); rep.paths += len(outs); rep.absorb_vm(vm)
+    bad = {}; seen = set()
+    for (m2, k, v) in outs:
+        e = _ev(m2); failed = 'storage_flush:err' in e
+        if k == 'panic': bad.setdefault('flush.panic', 'ChainProcess::flush panics: %s' % (str(v)[:120],)); continue
+        seen.add((v.name, failed))
+        if failed and v.name != 'Err': bad.setdefault('flush.swallowed', 'the storage backend failed to flush (events %s) but ChainProcess::flush returns Ok: the controller answers the Flush command with success' % e)
+        if not failed and v.name != 'Ok': bad.setdefault('flush.spurious_err', 'ChainProcess::flush returns Err although the storage flushed (events %s)' % e)
+    rep.cover('C13.2 flush: failing and succeeding storage flush both reachable', ('Err', True) in seen or any(f for (_, f) in seen)); rep.cover('C13.2 flush: removed trace slot reachable', any('trace:removed' in _ev(mm) for (mm, _, _) in outs))
+    for key, what in bad.items(): rep.violated('C13.2 ' + key, key, what, model={})
+    if not bad: rep.holds('C13.2 ChainProcess::flush returns Err iff the chain storage\'s flush fails; a chain whose storage was already taken is skipped (%d paths)' % len(outs), time.time() - t0)
+
+def wait_and_abort(rep, mir, L):
+    """Sampler::abort and Sampler::wait_timeout: the outcome of joining the controller thread / receiving on the results channel is symbolic"""
+    ab = next((f.parse() for n, f in mir.fns.items() if re.search(r'sampler::<impl at src/sampler.rs:\d+:1: \d+:\d+>::abort$', n)), None)
+    wt = next((f.parse() for n, f in mir.fns.items() if re.search(r'sampler::<impl at src/sampler.rs:\d+:1: \d+:\d+>::wait_timeout$', n)), None)
+    if ab is None or wt is None: rep.unknown('C13.3 Sampler::abort / wait_timeout not found in the MIR'); return
+    A = RealAlg(); vm = VM(mir, A); install_misc(vm); vm.loop_bound = 64
+    join_kinds = [('ok_none', lambda m, a: OK(OK(Struct((NONE(), Opaque('trace')))))), ('ok_some', lambda m, a: OK(OK(Struct((SOME(Opaque('anyhow(finalize)')), Opaque('trace')))))),
+                  ('err', lambda m, a: OK(ERR(Opaque('anyhow(controller)')))), ('panicked', lambda m, a: ERR(Opaque('panic payload')))]
+    vm.add_model(r'^JoinHandle::<.*>::join$', _fork('join', join_kinds))
+    def resume_unwind(vm, m, c, a):
+        m.log('events', ('resume_unwind',)); return [(m, 'panic', ('resume_unwind', 'payload of the controller thread', None))]
+    vm.add_model(r'^(std::panic::)?resume_unwind$', resume_unwind)
+    vm.add_model(r'^Instant::(now|elapsed)$', lambda vm, m, c, a: ret(m, Opaque('time')))
+    MAXR = 3
+    def checked_sub(vm, m, c, a):
+        return _fork('checked_sub', [('some', lambda m, a: SOME(Opaque('duration'))), ('none', lambda m, a: NONE())])(vm, m, c, a)
+    vm.add_model(r'^Duration::checked_sub$', checked_sub)
+    en = vm.enums
+    def rte(name): return Enum(en['RecvTimeoutError'].index(name), name, (), 'RecvTimeoutError')
+    def recv_timeout(vm, m, c, a):
+        n = len([e for e in _ev(m) if e.startswith('recv:')])
+        kinds = [('chain_err', lambda m, a: OK(ERR(Opaque('anyhow(chain)')))), ('disconnected', lambda m, a: ERR(rte('Disconnected'))), ('timeout', lambda m, a: ERR(rte('Timeout')))]
+        if n >= MAXR: kinds = kinds[1:]            # bound on the number of receives (also ends the loop of a changed wait_timeout that keeps waiting after an error)
+        if n < MAXR - 1: kinds.insert(0, ('chain_ok', lambda m, a: OK(OK(UNIT))))
+        return _fork('recv', kinds)(vm, m, c, a)
+    vm.add_model(r'^std::sync::mpsc::Receiver::<std::result::Result<\(\), anyhow::Error>>::recv_timeout$', recv_timeout)
+    if 'RecvTimeoutError' not in en: rep.unknown('C13.3 RecvTimeoutError layout unknown'); return
+    def sampler(m): return L.make('Sampler', {'main_thread': Opaque('join handle'), 'commands': Opaque('commands tx'), 'responses': Opaque('responses rx'), 'results': Opaque('results rx')})
+    # ---- abort
+    m = Machine(); m.ghost['events'] = []; t0 = time.time()
+    outs = list(vm.exec_fn(m, ab, [sampler(m)])); rep.paths += len(outs); bad = {}; seen = set()
+    for (m2, k, v) in outs:
+        e = _ev(m2); seen.add(e[-1] if e else '?')
+        if k == 'panic':
+            if 'join:panicked' in e and 'resume_unwind' in e: continue      # documented: a panic of the controller thread is re-raised (the closure never panics: C13.1)
+            bad.setdefault('abort.panic', 'Sampler::abort panics without a panicked controller thread: %s' % (str(v)[:100],)); continue
+        if 'join:err' in e and v.name != 'Err': bad.setdefault('abort.swallowed', 'the controller thread returned Err but abort() returns Ok')
+        if 'join:ok_some' in e and not (v.name == 'Ok' and v.f[0].f[0].name == 'Some'): bad.setdefault('abort.lost_finalize_error', 'abort() drops the finalisation error')
+        if 'join:ok_none' in e and not (v.name == 'Ok' and v.f[0].f[0].name == 'None'): bad.setdefault('abort.spurious', 'abort() reports an error although the controller finished cleanly')
+    for key, what in bad.items(): rep.violated('C13.3 ' + key, key, what, model={})
+    if not bad: rep.holds('C13.3 Sampler::abort: controller Err -> Err, finalisation error -> Ok((Some(err), trace)), clean -> Ok((None, trace)); only a panicked controller thread is re-raised (%d paths)' % len(outs), time.time() - t0)
+    rep.cover('C13.3 abort: all four join outcomes explored', len(outs) >= 4)
+    # ---- wait_timeout (abort is the real function, called from the MIR)
+    m = Machine(); m.ghost['events'] = []; t0 = time.time()
+    outs = list(vm.exec_fn(m, wt, [sampler(m), Opaque('timeout')])); rep.paths += len(outs); rep.absorb_vm(vm); bad = {}; res = set()
+    for (m2, k, v) in outs:
+        e = _ev(m2)
+        if k == 'panic':
+            if 'join:panicked' in e and 'resume_unwind' in e: continue
+            bad.setdefault('wait.panic', 'Sampler::wait_timeout panics: %s (events %s)' % (str(v)[:100], e[-4:])); continue
+        res.add(v.name)
+        err_delivered = 'recv:chain_err' in e or 'join:err' in e or 'join:ok_some' in e
+        if err_delivered and v.name != 'Err': bad.setdefault('wait.swallowed', 'an error was delivered (events %s) but wait_timeout returns %s' % (e[-4:], v.name))
+        if not err_delivered and v.name == 'Err': bad.setdefault('wait.spurious_err', 'wait_timeout returns Err without any error delivered (events %s)' % e[-4:])
+        if v.name == 'Trace' and not ('recv:disconnected' in e and 'join:ok_none' in e): bad.setdefault('wait.trace_without_finish', 'wait_timeout returns Trace although the controller did not finish cleanly (events %s)' % e[-4:])
+    for key, what in bad.items(): rep.violated('C13.3 ' + key, key, what, model={})
+    if not bad: rep.holds('C13.3 Sampler::wait_timeout (<= %d receives): a chain error or controller/finalisation error always yields SamplerWaitResult::Err, Trace only after a clean finish, Timeout otherwise (%d paths)' % (MAXR, len(outs)), time.time() - t0)
+    for r in ('Err', 'Trace', 'Timeout'): rep.cover('C13.3 wait_timeout result reachable: %s' % r, r in res)
+
+NCHAINS = 2; MAXCMD = 2
+def _storage_models(vm):
+    vm.add_model(r'anyhow::Context<.*>>::context::<|^anyhow::error::<impl anyhow::Error>::context::<', _context)
+    vm.add_model(r'^<Arc<.*> as Deref>::deref$', lambda vm, m, c, a: ret(m, a[0]))
+    def lock_trace(vm, m, c, a):
+        outs = []
+        for k in ('present', 'removed'):
+            m2 = m.clone(); m2.log('events', ('trace:' + k,)); cell = m2.alloc(SOME(Opaque('chain storage')) if k == 'present' else NONE())
+            outs.append((m2, 'ret', OK(Struct((Ref(cell),), 'MutexGuard'))))
+        return outs
+    vm.add_model(r'^std::sync::Mutex::<std::option::Option<.*ChainStorage>>::lock$', lock_trace)
+    vm.add_model(r'^<std::sync::MutexGuard<.*> as DerefMut>::deref_mut$|^<std::sync::MutexGuard<.*> as Deref>::deref$', lambda vm, m, c, a: ret(m, deref_val(vm, m, a[0]).f[0]))
+    vm.add_model(r' as ChainStorage>::flush$', _fork('storage_flush', [('ok', lambda m, a: OK(UNIT)), ('err', lambda m, a: ERR(Opaque('anyhow(flush)')))]))
+    vm.add_model(r' as ChainStorage>::inspect$', _fork('storage_inspect', [('ok', lambda m, a: OK(SOME(Opaque('chain view')))), ('err', lambda m, a: ERR(Opaque('anyhow(inspect chain)')))]))
+
+def _controller_models(vm, maxcmd):
+    en = vm.enums
+    vm.add_model(r'^Instant::(now|elapsed)$', lambda vm, m, c, a: ret(m, Opaque('time')))
+    vm.add_model(r'^Duration::(checked_sub)$', _fork('checked_sub', [('some', lambda m, a: SOME(Opaque('duration'))), ('none', lambda m, a: NONE())]))
+    vm.add_model(r'^Duration::saturating_sub$|^<Duration as AddAssign>::add_assign$', lambda vm, m, c, a: ret(m, Opaque('duration') if 'saturating' in c else UNIT))
+    def scmd(name): return Enum(en['SamplerCommand'].index(name), name, (), 'SamplerCommand')
+    def rte(name): return Enum(en['RecvTimeoutError'].index(name), name, (), 'RecvTimeoutError')
+    def recv_cmd(vm, m, c, a):
+        n = len([e for e in _ev(m) if e.startswith('cmd:')])
+        if n >= maxcmd: m.log('events', ('cmd:disconnected(bound)',)); return ret(m, ERR(rte('Disconnected')))
+        kinds = [(x.lower(), (lambda x: lambda m, a: OK(scmd(x)))(x)) for x in ('Pause', 'Continue', 'Progress', 'Flush', 'Inspect')]
+        kinds += [('disconnected', lambda m, a: ERR(rte('Disconnected')))]
+        if n == 0: kinds.append(('timeout', lambda m, a: ERR(rte('Timeout'))))
+        return _fork('cmd', kinds)(vm, m, c, a)
+    vm.add_model(r'^std::sync::mpsc::Receiver::<SamplerCommand>::recv_timeout$', recv_cmd)
+    vm.add_model(r'^ChainProcess::<T>::(pause|resume)$', _fork('chain_signal', [('ok', lambda m, a: OK(UNIT)), ('gone', lambda m, a: ERR(Opaque('anyhow(send)')))]))
+    vm.add_model(r'^ChainProcess::<T>::progress$', lambda vm, m, c, a: ret(m, Opaque('progress')))
+    vm.add_model(r'^SyncSender::<SamplerResponse<.*>>::send$', _fork('respond', [('ok', lambda m, a: OK(UNIT)), ('closed', lambda m, a: ERR(Struct((a[1],), 'SendError')))]))
+    vm.add_model(r'^<Vec<ChainProgress> as Into<Box<\[ChainProgress\]>>>::into$', lambda vm, m, c, a: ret(m, a[0]))
+    vm.add_model(r'^<T as TraceStorage>::inspect$', _fork('trace_inspect', [('ok', lambda m, a: OK(Struct((NONE(), Opaque('view'))))), ('err', lambda m, a: ERR(Opaque('anyhow(inspect)')))]))
+
+def _chainproc(L, i): return L.make('ChainProcess', {'stop_marker': Opaque('tx%d' % i), 'trace': Opaque('trace arc %d' % i), 'progress': Opaque('progress arc %d' % i)})
+LOOP_FAULTS = ('storage_flush:err', 'trace_inspect:err', 'respond:closed')    # a per-chain inspect error is handed to TraceStorage::inspect as data, not a sampler failure
+
+def controller_loop(rep, mir, L):
+    """(A) the controller thread's command loop (`main_loop`), every fallible call's outcome symbolic"""
+    loop = _find(mir, r'sampler::<impl at src/sampler.rs:\d+:1: \d+:\d+>::new::\{closure#0\}::\{closure#1\}::\{closure#0\}$')
+    if loop is None: rep.unknown('C13.4 controller command loop not found in the MIR'); return
+    A = RealAlg(); vm = VM(mir, A); install_misc(vm); _storage_models(vm); vm.loop_bound = 64
+    if 'SamplerCommand' not in vm.enums: rep.unknown('C13.4 SamplerCommand layout unknown'); return
+    _controller_models(vm, MAXCMD)
+    m = Machine(); m.ghost['events'] = []
+    chains = m.alloc(Seq([_chainproc(L, i) for i in range(NCHAINS)]))
+    caps = loop.captures(); env = {'callback': Ref(m.alloc(NONE())), 'chains': Ref(chains), 'commands_rx': Ref(m.alloc(Opaque('commands rx'))), 'responses_tx': Ref(m.alloc(Opaque('responses tx'))), 'trace': Ref(m.alloc(Opaque('trace')))}
+    fields = [None] * len(caps)
+    for nm, (idx, byref) in caps.items():
+        if nm not in env: rep.unknown('C13.4 command loop capture %s unknown' % nm); return
+        fields[idx] = env[nm]
+    t0 = time.time(); clo = Ref(m.alloc(Closure(loop.args[0][1], fields, None)))
+    outs = list(vm.exec_fn(m, loop, [clo])); rep.paths += len(outs); bad = {}; seen = set()
+    for (m2, k, v) in outs:
+        e = _ev(m2); fail = [x for x in e if x in LOOP_FAULTS]
+        if k == 'panic': bad.setdefault('controller.loop.panic', 'the controller command loop panics: %s (events %s)' % (str(v)[:100], e[-5:])); continue
+        seen.add((v.name, bool(fail)))
+        if fail and v.name != 'Err': bad.setdefault('controller.loop.swallowed.' + fail[0].split(':')[0], 'the command loop continues / returns Ok after %s (events %s)' % (fail, e[-6:]))
+        if not fail and v.name != 'Ok': bad.setdefault('controller.loop.spurious_err', 'the command loop returns Err although nothing failed (events %s)' % e[-6:])
+        ncmd = len([x for x in e if x in ('cmd:pause', 'cmd:continue', 'cmd:progress', 'cmd:flush', 'cmd:inspect')]); nresp = len([x for x in e if x.startswith('respond:')])
+        if not fail and ncmd != nresp: bad.setdefault('controller.loop.unanswered', 'a served command got no response (the caller of pause/flush/... would block): %d commands, %d responses (events %s)' % (ncmd, nresp, e[-6:]))
+    for key, what in bad.items(): rep.violated('C13.4 ' + key, key, what, model={})
+    if not bad: rep.holds('C13.4 controller command loop (%d chains, <= %d commands): a failing storage flush / inspect or a closed response channel ends the loop with Err; every served command is answered exactly once; chains that are gone are ignored on pause/continue (%d paths)' % (NCHAINS, MAXCMD, len(outs)), time.time() - t0)
+    rep.cover('C13.4 command loop: Ok and Err|fault outcomes reachable', ('Ok', False) in seen and ('Err', True) in seen)
+    rep.absorb_vm(vm)
+
+def controller_scope(rep, mir, L):
+    """(B) the whole scope closure of the controller thread: model construction, trace creation, per-chain trace, chain start, the real command loop
+    (<= 1 command), finalisation"""
+    scope = _find(mir, r'sampler::<impl at src/sampler.rs:\d+:1: \d+:\d+>::new::\{closure#0\}::\{closure#1\}$')
+    if scope is None: rep.unknown('C13.5 controller scope closure not found in the MIR'); return
+    A = RealAlg(); vm = VM(mir, A); install_misc(vm); _storage_models(vm); _controller_models(vm, 1); vm.loop_bound = 64
+    anyerr = lambda tag: ERR(Opaque('anyhow(%s)' % tag))
+    vm.add_model(r'^<S as Settings>::num_chains$', lambda vm, m, c, a: ret(m, NCHAINS))
+    vm.add_model(r'^<S as Settings>::seed$', lambda vm, m, c, a: ret(m, z3.Int('seed')))
+    vm.add_model(r'^<ChaCha8Rng as SeedableRng>::seed_from_u64$', lambda vm, m, c, a: ret(m, Opaque('rng')))
+    vm.add_model(r'^ChaCha8Rng::set_stream$', lambda vm, m, c, a: ret(m, UNIT))
+    vm.add_model(r'^<M as Model>::math::<', _fork('math', [('ok', lambda m, a: OK(Opaque('logp'))), ('err', lambda m, a: anyerr('math'))]))
+    vm.add_model(r'^<C as StorageConfig>::new_trace::<', _fork('new_trace', [('ok', lambda m, a: OK(Opaque('trace'))), ('err', lambda m, a: anyerr('new_trace'))]))
+    vm.add_model(r'^<T as TraceStorage>::initialize_trace_for_chain$', _fork('chain_trace', [('ok', lambda m, a: OK(Opaque('chain storage'))), ('err', lambda m, a: anyerr('chain_trace'))]))
+    vm.add_model(r'^<std::sync::mpsc::Sender<.*> as Clone>::clone$', lambda vm, m, c, a: ret(m, Opaque('results tx')))
+    def start(vm, m, c, a):
+        return _fork('start', [('ok', lambda m, a: OK(_chainproc(L, len([e for e in _ev(m) if e.startswith('start:')])))), ('err', lambda m, a: anyerr('start'))])(vm, m, c, a)
+    vm.add_model(r'^ChainProcess::<T>::start::<', start)
+    def partition_result(vm, m, c, a):
+        from ..iters import to_iter
+        it = to_iter(vm, m, a[0]); oks = [x.f[0] for x in it.items if x.name == 'Ok']; errs = [x.f[0] for x in it.items if x.name == 'Err']
+        return ret(m, Struct((Seq(oks), Seq(errs))))
+    vm.add_model(r' as Itertools>::partition_result::<', partition_result)
+    fin = [('ok_none', lambda m, a: OK(Struct((NONE(), Opaque('finalized'))))), ('ok_some', lambda m, a: OK(Struct((SOME(Opaque('anyhow(chain finalize)')), Opaque('finalized'))))), ('err', lambda m, a: anyerr('finalize'))]
+    vm.add_model(r'^ChainProcess::<T>::finalize_many$', _fork('finalize', fin))
+    m = Machine(); m.ghost['events'] = []
+    caps = scope.captures()
+    env = {'results_tx': Opaque('results tx'), 'settings': Opaque('settings'), 'model_ref': Ref(m.alloc(Opaque('model'))), 'trace_config': Opaque('trace config'), 'settings_ref': Ref(m.alloc(Opaque('settings'))),
+           'callback': NONE(), 'commands_rx': Opaque('commands rx'), 'responses_tx': Opaque('responses tx')}
+    fields = [None] * len(caps)
+    for nm, (idx, byref) in caps.items():
+        if nm not in env: rep.unknown('C13.5 scope closure capture %s unknown (have %s)' % (nm, sorted(caps))); return
+        fields[idx] = env[nm]
+    if any(f is None for f in fields): rep.unknown('C13.5 scope closure captures changed: %s' % sorted(caps)); return
+    t0 = time.time(); clo = Closure(scope.args[0][1], fields, None)
+    outs = list(vm.exec_fn(m, scope, [clo, Ref(m.alloc(Opaque('scope')))])); rep.paths += len(outs); bad = {}; seen = set()
+    for (m2, k, v) in outs:
+        e = _ev(m2); fail = [x for x in e if x in LOOP_FAULTS + ('math:err', 'new_trace:err', 'chain_trace:err', 'start:err', 'finalize:err')]
+        if k == 'panic': bad.setdefault('controller.scope.panic', 'the controller thread panics: %s (events %s)' % (str(v)[:100], e[-5:])); continue
+        seen.add((v.name, bool(fail)))
+        if fail and v.name != 'Err': bad.setdefault('controller.scope.swallowed.' + fail[0].split(':')[0], 'the controller thread returns Ok after %s (events %s)' % (fail, e[-6:]))
+        if not fail and v.name != 'Ok': bad.setdefault('controller.scope.spurious_err', 'the controller thread returns Err although nothing failed (events %s)' % e[-6:])
+        if not fail and v.name == 'Ok':
+            want = 'Some' if 'finalize:ok_some' in e else 'None'
+            if v.f[0].f[0].name != want: bad.setdefault('controller.scope.finalize_error_lost', 'the per-chain finalisation error reported by the storage is not passed on (events %s)' % e[-6:])
+    for key, what in bad.items(): rep.violated('C13.5 ' + key, key, what, model={})
+    if not bad: rep.holds('C13.5 controller thread body (%d chains, <= 1 command): failure of model construction, trace creation, per-chain trace creation, chain start, flush/inspect, response channel or finalisation => the thread returns Err (which abort()/wait_timeout() deliver, C13.3); a per-chain finalisation error is passed on (%d paths)' % (NCHAINS, len(outs)), time.time() - t0)
+    rep.cover('C13.5 controller thread: Ok and Err|fault outcomes reachable', ('Ok', False) in seen and ('Err', True) in seen)
+    rep.absorb_vm(vm)
